@@ -945,6 +945,16 @@ func ruleCreatedFileSync(e *Engine, r *Report, minInst int, pkgs ...string) {
 				syncs = true
 			}
 		})
+		if create != nil && !syncs {
+			// the fsync moved into a same-package helper that is handed the created file
+			e.forEachInstrRegion(fn, 1, func(x ssa.Instruction) {
+				if c, ok := x.(ssa.CallInstruction); ok && c.Parent() != fn && isIfaceInvoke(c, "Sync", "Sync", "Close", "Write") {
+					if _, isParam := stripChangeInterface(c.Common().Value).(*ssa.Parameter); isParam {
+						syncs = true
+					}
+				}
+			})
+		}
 		if create == nil || !writes {
 			continue
 		}
